@@ -1004,3 +1004,35 @@ mod tests {
         subscribers.send(Event::NeighborUp(pk)).await;
     }
 }
+
+#[cfg(feature = "verif-hooks")]
+#[allow(missing_docs)]
+impl LiveActor {
+    pub fn verif_insert_namespace(&mut self, namespace: NamespaceId) { self.state.insert(namespace) }
+    pub fn verif_snapshot(&self, namespace: &NamespaceId, peer: &PublicKey) -> super::state::VerifPeerSnapshot { self.state.verif_snapshot(namespace, peer) }
+    /// returns true if a dial was started
+    pub fn verif_sync_with_peer(&mut self, namespace: NamespaceId, peer: PublicKey, reason: SyncReason) -> bool {
+        let before = self.running_sync_connect.len();
+        self.sync_with_peer(namespace, peer, reason);
+        let started = self.running_sync_connect.len() > before;
+        self.running_sync_connect.abort_all();
+        self.running_sync_connect.detach_all();
+        started
+    }
+    pub async fn verif_connect_finished(&mut self, namespace: NamespaceId, peer: PublicKey, reason: SyncReason, result: Result<SyncFinished, ConnectError>) -> bool {
+        let before = self.running_sync_connect.len();
+        self.on_sync_via_connect_finished(namespace, peer, reason, result).await;
+        let started = self.running_sync_connect.len() > before;
+        self.running_sync_connect.abort_all();
+        self.running_sync_connect.detach_all();
+        started
+    }
+    pub async fn verif_accept_finished(&mut self, res: Result<SyncFinished, AcceptError>) -> bool {
+        let before = self.running_sync_connect.len();
+        self.on_sync_via_accept_finished(res).await;
+        let started = self.running_sync_connect.len() > before;
+        self.running_sync_connect.abort_all();
+        self.running_sync_connect.detach_all();
+        started
+    }
+}
